@@ -346,12 +346,62 @@ def proposal_worker(cfg):
                 errs.append((f"forward(backward(z))!=z:{label}", f"max diff {dz!r}"))
             if not np.all(model.in_bounds(x)):
                 errs.append((f"generated-point-outside-prior-bounds:{label}", ""))
+        # far out in the latent space the generated points crowd the prior bounds (logit / rescaling
+        # edges): in float64 the two densities must still agree there
+        if cfg["latent_prior"] in ("truncated_gaussian", "gaussian") and cfg["ftype"] == "realnvp":
+            from nessai.utils.torchutils import set_torch_default_dtype
+
+            set_torch_default_dtype("float64")
+            torch.manual_seed(3)
+            np.random.seed(3)
+            prop2 = FlowProposal(
+                model, output=out + "_64", poolsize=50, plot=False, latent_prior=cfg["latent_prior"], constant_volume_mode=cv,
+                reparameterisations=cfg["reparameterisations"],
+                flow_config=dict(runs.FLOW_TINY, n_neurons=8, ftype=cfg["ftype"]), training_config=dict(runs.TRAIN_TINY),
+            )
+            prop2.initialise()
+            prop2.train(live, plot=False)
+            prop2.r = 2.0
+            prop2.alt_dist = prop2.get_alt_distribution()
+            rs_ = np.random.RandomState(11)
+            zdir = rs_.randn(120, prop2.rescaled_dims)
+            zdir /= np.linalg.norm(zdir, axis=1, keepdims=True)
+            for radius in (1.0, 4.0, 8.0, 14.0, 22.0, 35.0):
+                zz = zdir * radius
+                with np.errstate(all="ignore"):
+                    x2, lq2, zk2 = prop2.backward_pass(zz, rescale=True, return_z=True)
+                    if len(x2) == 0:
+                        continue
+                    zf2, lqf2 = prop2.forward_pass(x2, rescale=True, compute_radius=False)
+                n += 1
+                if len(lqf2) != len(lq2):
+                    continue
+                with torch.no_grad():
+                    base2 = prop2.flow.model.base_distribution_log_prob(torch.from_numpy(zf2).type(torch.get_default_dtype())).numpy()
+                amp2 = np.exp(np.clip(np.abs(lqf2 - base2) / max(1, prop2.rescaled_dims), 0, 200))
+                # conditioning of the reparameterisation itself: a point whose distance to a prior
+                # bound is only a few ulps cannot be mapped forwards accurately (1 - u is quantised)
+                ucoord = np.stack([(x2[nm_] - model.bounds[nm_][0]) / (model.bounds[nm_][1] - model.bounds[nm_][0]) for nm_ in model.names], axis=1)
+                well = np.min(np.minimum(ucoord, 1 - ucoord), axis=1) > 1e-11
+                ok2 = np.isfinite(lq2) & np.isfinite(lqf2) & ((2.2e-16 * amp2) < 1e-6) & well
+                if ok2.any():
+                    d2 = np.abs(lq2[ok2] - lqf2[ok2])
+                    if np.any(d2 > 1e-3 * (1 + np.abs(lqf2[ok2]))):
+                        i2 = int(np.argmax(d2))
+                        errs.append((f"float64:density-attached-to-generated-point!=density-of-that-point-passed-forwards:{label}", f"latent radius {radius}: {lq2[ok2][i2]!r} vs {lqf2[ok2][i2]!r} at x={x2[ok2][i2]!r}"))
+                        break
+                    dz2 = np.abs(zf2[ok2] - zk2[ok2]).max()
+                    if dz2 > 1e-3 * (1 + radius):
+                        errs.append((f"float64:forward(backward(z))!=z:{label}", f"latent radius {radius}: max diff {dz2!r}"))
+                        break
+            shutil.rmtree(out + "_64", ignore_errors=True)
     except Exception as e:
         import traceback
 
         errs.append((f"raises-{type(e).__name__}:{label}", f"{e} | {traceback.format_exc()[-300:]}"))
     finally:
         shutil.rmtree(out, ignore_errors=True)
+        shutil.rmtree(out + "_64", ignore_errors=True)
     seen, viol = set(), []
     for k, dd_ in errs:
         if k not in seen:
